@@ -726,6 +726,7 @@ def c13(run):
     run.assumptions = AUTHZ_ASSUME
     t = "thorough" if run.tier == "thorough" else "quick"
     cfgs = [("Lifecycle_reset_" + t, "L1 ResetClean + export of all round histories", {}),
+            ("Lifecycle_loadreset_" + t, "L1 ResetClean + export of round histories whose content arrives through LoadPolicies", {}),
             ("Lifecycle_neg_base", "negative model: base world overwritten after Authorize", {"expect_violation": True})]
     if run.tier == "thorough":
         cfgs.insert(1, ("Lifecycle_reset_sim", "L1 ResetClean on simulated 3-round histories + export", {"simulate": 400, "depth": 30, "seed": run.seed, "workers": 8}))
@@ -1192,6 +1193,7 @@ def c09(run):
         c["id"], c["emb"] = "s%d" % i, emb_of(run, i)
     chain_stage(run, driver, sealed, {"C01"}, "L2 sealed-envelope mutation")
     chainmut_stage(run, driver, 3000 if run.tier == "quick" else 60000, "L3 wire mutation (sealed and unsealed tokens)")
+    foreign_stage(run, driver)
     # same authorization outcome sealed vs unsealed: the two-block Authz instances with the token sealed
     insts = []
     ra = core.tlc(run.work, "AuthzMC", "AuthzMC_two", timeout=3000)
@@ -1386,6 +1388,7 @@ def c07(run):
                        wire_text(c), [x["symbols"] for x in events[b]["wire"]["blocks"]]))
     # histories (siblings, seal, reload, GetBlockID) from the SymHeap generator: serialized bytes, reloaded content and
     # revocation ids of every token must stay what they were at creation (C07: "all build/append/seal/serialize/unmarshal sequences")
+    foreign_stage(run, driver)
     hist = gen_cases(run, driver, "heap")[:600 if run.tier == "quick" else 6000]
     heap_expectations(run, hist)
     heap_stage(run, driver, hist, "history")
@@ -1516,6 +1519,40 @@ def c10(run):
     run.traces += len(cases)
     run.sample({"case": adv_text(cases[100]), "must_be_rejected": cases[100]["gated"]})
     run.sample({"case": adv_text(cases[-1])})
+
+
+def foreign_stage(run, driver):
+    """valid tokens written by ANOTHER encoder (context omitted, other field order, 0 or 40 later blocks, root key ids)"""
+    cases = []
+    for f in ("no-context", "version-first", "no-context+version-first", "canonical"):
+        for extra in ([], [{"f": "envelope.blocks", "v": "0"}], [{"f": "envelope.blocks", "v": "40"}], [{"f": "envelope.rootkeyid", "v": "0"}],
+                      [{"f": "envelope.rootkeyid", "v": "2^32-1"}], [{"f": "block.extra", "v": "facts-500"}], [{"f": "block.extra", "v": "unknown-field"}]):
+            cases.append({"id": "f%d" % len(cases), "knobs": [{"f": "foreign", "v": f}] + extra})
+    res = core.run_driver(driver, "foreign", cases, per_case_timeout=120)
+    for c in cases:
+        o = res[c["id"]]
+        run.count("foreign " + adv_text(c))
+        bad = o.get("bad") if not o.get("crash") else ["process died: " + o.get("stderr", "")[-300:]]
+        if bad is None:
+            raise Infra("foreign driver: " + json.dumps(o)[:300])
+        if bad:
+            rc = confirm_case(driver, "foreign", c, o, ("bad",))
+            run.report({"what": bad[0][:60], "encoding": c["knobs"][0]["v"]}, c, "foreign", "token written by another encoder (%s): %s" % (adv_text(c), "; ".join(bad)),
+                       (lambda rc=rc: rc is not None))
+    run.traces += len(cases)
+
+
+def replay_foreign(run, body):
+    driver = core.build_driver(run.work)
+    c = dict(body["case"])
+    o = core.run_driver(driver, "foreign", [c], nproc=1)[str(c["id"])]
+    run.count("replay")
+    run.count("replay2")
+    if o.get("crash") or o.get("bad"):
+        run.report(body["sig"], c, "foreign", "replayed: %s" % (o.get("bad") or "process died"))
+
+
+REPLAYERS["foreign"] = replay_foreign
 
 
 def replay_adv(run, body):
